@@ -23,7 +23,7 @@ SPEC = dict(
                  "real git: only messages that git's own whitespace/comment clean-up leaves unchanged are read back"],
     required=["fake_git_runs", "fake_hg_runs", "real_git_runs", "k12_evaluations", "class:squote", "class:dquote",
               "class:backslash", "class:newline", "class:leading-dash", "class:dollar", "class:backtick",
-              "hostile_paths_checked"],
+              "hostile_paths_checked", "templates_from_config", "config_templates_with_OLD_NEW_words"],
     anchors=[("vcs", "commit"), ("cli", "_sub_msg_template"), ("cli", "update")],
 )
 
@@ -89,11 +89,13 @@ def cases(ctx):
         yield {"kind": "real", "seed": R.getrandbits(48)}
 
 
-def build_project(R, names, commit_msg_cfg=None):
+def build_project(R, names, commit_msg_cfg=None, tag_msg_cfg=None):
     lines = ["[bumpver]", 'current_version = "v1.2.3-beta"', 'version_pattern = "vMAJOR.MINOR.PATCH[-TAG]"',
              "commit = true", "tag = true", "push = false"]
     if commit_msg_cfg:
         lines.append(f"commit_message = {projects.toml_str(commit_msg_cfg)}")
+    if tag_msg_cfg:
+        lines.append(f"tag_message = {projects.toml_str(tag_msg_cfg)}")
     lines += ["", "[bumpver.file_patterns]", '"bumpver.toml" = [\'current_version = "{version}"\']']
     files = {}
     for n in names:
@@ -120,14 +122,28 @@ def run_fake(ctx, case):
     names = R.sample(PATH_NAMES, R.randint(1, 3))
     cm, used_c = gen_template(R)
     tm, used_t = gen_template(R)
-    files = build_project(R, names)
+    # a third of the cases give the templates in the CONFIG file: the OLD/NEW shorthand is a command line
+    # feature, a configured template is used verbatim (only the {placeholders} are substituted)
+    via_cfg = R.random() < 0.34
+    if via_cfg:
+        def cfg_ok(t):
+            return t == t.strip("'\" ") and "\n" not in t and t != ""
+        for _ in range(30):
+            if cfg_ok(cm) and cfg_ok(tm):
+                break
+            cm, used_c = gen_template(R)
+            tm, used_t = gen_template(R)
+        else:
+            via_cfg = False
+    files = build_project(R, names, commit_msg_cfg=cm if via_cfg else None, tag_msg_cfg=tm if via_cfg else None)
     results = {}
     for variant, (c_t, t_t) in (("benign", ("m", "t")), ("hostile", (cm, tm))):
-        d = harness.new_project(files)
+        d = harness.new_project(files if variant == "hostile" or not via_cfg else
+                                build_project(R, names, commit_msg_cfg="m", tag_msg_cfg="t"))
         fake = harness.FakeVCS(d, vcs)
         try:
             fake.set_out("status", "")
-            args = ["update", "--patch", "--no-fetch", "--commit-message", c_t, "--tag-message", t_t]
+            args = ["update", "--patch", "--no-fetch"] + ([] if via_cfg else ["--commit-message", c_t, "--tag-message", t_t])
             res = harness.invoke(args, cwd=d, env=fake.env)
             results[variant] = (res, fake.events(), args)
         finally:
@@ -147,8 +163,12 @@ def run_fake(ctx, case):
     for n in hostile_names:
         ctx.nt.add(f"path|{n}|{vcs}")
     ctx.evaluated(sample={"argv": args, "paths": names, "vcs": vcs})
-    want_cm = expand(cm, OLD, NEW, OLD_PEP, NEW_PEP)
-    want_tm = expand(tm, OLD, NEW, OLD_PEP, NEW_PEP)
+    want_cm = expand(cm, OLD, NEW, OLD_PEP, NEW_PEP, cli=not via_cfg)
+    want_tm = expand(tm, OLD, NEW, OLD_PEP, NEW_PEP, cli=not via_cfg)
+    if via_cfg:
+        ctx.count("templates_from_config")
+        if "shorthand" in used_c | used_t:
+            ctx.count("config_templates_with_OLD_NEW_words")
     mech = "value_split_after_formatting"
     for w in contracts.K12_WITNESSES:
         ctx.violation(mech, f"K12: {w[0]}: expected argv {w[1]!r}, spawned {w[2]!r}", case=case)
